@@ -4,7 +4,7 @@ Model: a shape calculus (coq/C14_Model.v).  Correspondence: the model's verdict 
 throws / first failing entry point) must equal what the library does when built with Eigen's assertions on
 (variant `assert`) and under ASan+UBSan (variant `asan`); for cases that run to their end the shapes and return
 values the model predicts must equal the observed ones."""
-import itertools, math, re
+import itertools, math, re, zlib
 from vlib import caseio
 
 import os
@@ -383,6 +383,218 @@ def g_extract(g, rng, tier):
     g.add("extract", "outside", ext(3, 1, 0, 2, 4, 2, 0, pr=3))
 
 
+# ------------------------------------------------------------------ operation sequences on ONE object
+METHODS = ["mean", "smean", "wmean", "emean", "mode", "smode", "wmode", "emode", "map", "smap", "wmap", "emap"]
+WINDOWS = [-3, 0, 1, 2, 2, 3, 3, 4, 5, 6, 7, 10, 29, 30, 31, 100]
+
+
+def xtok(rng, ssz, stat, n=None):
+    """one valid extract call: n particles now, tc particles at the previous step; the five-argument overload is the
+    only one that evaluates the map family, and is also used (forwarding) with the other families"""
+    n = n if n is not None else rng.choice([1, 1, 2, 2, 3, 4, 5, 8, 13])
+    if stat == 2 or rng.random() < 0.25:
+        if stat == 2 and rng.random() < 0.1:
+            return "x:%d:%d:%d" % (ssz, n, n)              # map family through the two-argument overload: reports false
+        tc = rng.choice([1, 2, 3, n, n, 7])
+        return "X:%d:%d:%d:%d:%d:%d:%d" % (ssz, n, n, tc, n, n, tc)
+    return "x:%d:%d:%d" % (ssz, n, n)
+
+
+def g_extseq(g, rng, tier):
+    lays = [(2, 0), (2, 1), (0, 2), (1, 0), (3, 2), (0, 1)]
+    # systematic: two averaging families f1 != f2 of one statistic used alternately on one object, the window changed or
+    # the history cleared in between, so that each family's cached weight vector is older than the history it meets
+    shapes = [(5, 2, 1, 0), (2, None, 3, 0), (3, 4, 2, 0), (6, 3, 1, 1), (1, 30, 7, 0), (4, None, 2, 1), (7, 1, 1, 0), (2, 100, 31, 0)]
+    idx = 0
+    for stat in (0, 1, 2):
+        for f1 in (1, 2, 3):
+            for f2 in (1, 2, 3):
+                if f1 == f2:
+                    continue
+                for (a, wnew, c, clr) in shapes:
+                    idx += 1
+                    if tier == "quick" and (idx % 3) != 0 and not (f1 == 3 or f2 == 3) :
+                        continue
+                    el, ec = lays[idx % 4]
+                    ssz = el + ec
+                    ops = ["m%d" % (4 * stat + f1)] + [xtok(rng, ssz, stat) for _ in range(a)]
+                    if wnew is not None: ops.append("w%d" % wnew)
+                    if clr: ops.append("clr")
+                    ops += ["m%d" % (4 * stat + f2)] + [xtok(rng, ssz, stat) for _ in range(c)]
+                    ops += ["m%d" % (4 * stat + f1)] + [xtok(rng, ssz, stat) for _ in range(2)]
+                    ops += ["m%d" % (4 * stat + f2), xtok(rng, ssz, stat), "m%d" % (4 * ((stat + 1) % 3) + f1), xtok(rng, ssz, (stat + 1) % 3)]
+                    g.add("extseq", "valid", dict(el=el, ec=ec), {"ops": ops})
+    # every method once on one object, in enumeration order and reversed, window shrinking meanwhile
+    for (el, ec) in lays[:4]:
+        ssz = el + ec
+        for order in (list(range(12)), list(range(11, -1, -1))):
+            ops = []
+            for k, m in enumerate(order):
+                ops += ["m%d" % m, xtok(rng, ssz, m // 4), xtok(rng, ssz, m // 4)]
+                if k % 4 == 3: ops.append("w%d" % (6 - k // 2))
+            g.add("extseq", "valid", dict(el=el, ec=ec), {"ops": ops})
+    # seeded random sequences
+    for _ in range(150 if tier == "quick" else 1200):
+        el, ec = rng.choice(lays) if rng.random() < 0.8 else (rng.randint(0, 5), rng.randint(0, 3))
+        if el + ec == 0: el = 1
+        ssz = el + ec
+        stat, ops = 1, []
+        fams = rng.choice([(1, 2, 3), (1, 2, 3), (2, 3), (0, 1, 2, 3), (1, 3)])
+        for _ in range(rng.randint(6, 45 if tier == "quick" else 70)):
+            r = rng.random()
+            if r < 0.55: ops.append(xtok(rng, ssz, stat))
+            elif r < 0.80:
+                stat = rng.choice([0, 0, 1, 1, 2]) if rng.random() < 0.4 else stat
+                ops.append("m%d" % (4 * stat + rng.choice(fams)))
+            elif r < 0.94: ops.append("w%d" % rng.choice(WINDOWS))
+            else: ops.append("clr")
+        g.add("extseq", "valid", dict(el=el, ec=ec), {"ops": ops + [xtok(rng, ssz, stat)]})
+    # inputs of other shapes in the middle of a sequence (informative only)
+    g.add("extseq", "outside", dict(el=2, ec=0), {"ops": ["m1", "x:2:3:3", "x:2:3:4"]})              # weights for another particle count
+    g.add("extseq", "outside", dict(el=2, ec=1), {"ops": ["m5", "x:3:3:3", "m6", "x:4:3:3"]})        # a 4-row mode pushed into the 3-row history
+    g.add("extseq", "outside", dict(el=2, ec=0), {"ops": ["m9", "X:2:3:3:2:3:3:2", "X:2:3:3:2:3:3:4"]})  # previous weights of another count
+    g.add("extseq", "outside", dict(el=1, ec=1), {"ops": ["m3", "x:2:2:2", "w2", "m2", "x:2:0:0"]})  # no particle at all
+
+
+def g_objseq(g, rng, tier):
+    """One object of a step / model / utility that keeps a buffer sized by an earlier call, driven through several calls with
+    CHANGING sizes (no shape program: observed under the assertion and sanitizer builds; reported sizes are checked)."""
+    reps = 2 if tier == "quick" else 6
+    counts = [1, 2, 3, 4, 5, 7]
+
+    def cseq(n, toks="cccccuukl"):
+        out = []
+        for _ in range(n):
+            t = rng.choice(toks)
+            out.append("l" if t == "l" else "%s%d" % (t, rng.choice(counts)))
+        return out
+    for _ in range(reps):
+        # KFCorrection: innovations_, meas_covariances_ (resized "only if needed") across component counts
+        for (m, n) in ((2, 4), (1, 3), (3, 2)):
+            g.add("objseq", "valid", dict(what="kf", m=m, n=n), {"steps": ["l", "c3", "l", "c1", "l", "c4", "u2", "l", "c2", "l", "k5", "l", "c5", "l"] + cseq(8) + ["l"]})
+        # UKFCorrection: innovations_, predicted_meas_, UT weights; component count, measurement layout / size, noise size
+        lms = [(2, 0, 0), (1, 1, 0), (3, 0, 0), (0, 1, 1), (2, 1, 1), (1, 0, 0), (0, 2, 0)]
+        for additive, online in ((1, 0), (0, 0), (0, 1)):
+            for lp in ((3, 0, 0), (2, 2, 0), (1, 0, 0)):
+                r0 = 2
+                steps = ["l"]
+                for i in range(9):
+                    lm = lms[(i + lp[0]) % len(lms)] if i < 7 else rng.choice(lms)
+                    r = lcov(lm) if additive else (rng.randint(1, 3) if online else r0)
+                    kind = "f" if i in (3, 6) else "c"
+                    steps += ["%s%d:%d:%d:%d:%d" % (kind, rng.choice(counts) if i else 3, lm[0], lm[1], lm[2], r), "l"]
+                g.add("objseq", "valid", dict(what="ukf", additive=additive, online=online, r=r0, **lay("p", lp)), {"steps": steps})
+        # SUKFCorrection: propagated_sigma_points_, innovations_; component count and measurement size (multiples of the sub-size)
+        for lp in ((3, 0, 0), (2, 2, 0)):
+            for sub, reduced in ((1, 0), (2, 0), (2, 1), (3, 1)):
+                steps = ["l"]
+                for i in range(8):
+                    steps += ["%s%d:%d" % ("f" if i in (2, 5) else "c", rng.choice(counts), sub * rng.randint(1, 3)), "l"]
+                g.add("objseq", "valid", dict(what="sukf", sub=sub, reduced=reduced, msz=sub * 2, **lay("p", lp)), {"steps": steps})
+        # GPFCorrection (Kalman / unscented inner step) and BootstrapCorrection: likelihood_ across particle counts
+        for inner in (0, 1):
+            g.add("objseq", "valid", dict(what="gpf", inner=inner), {"steps": ["l", "c3", "l", "c7", "l", "c1", "l", "u4", "l", "c2", "k6", "l", "c5", "l"] + cseq(6) + ["l"]})
+        g.add("objseq", "valid", dict(what="boot"), {"steps": ["l", "c4", "l", "c9", "l", "u2", "l", "c1", "l", "k3", "l", "c6", "l"] + cseq(8) + ["l"]})
+        # Resampling / ResamplingWithPrior: particle count and layout changing between calls of one object
+        lays4 = [(4, 0, 0), (2, 1, 0), (1, 0, 0), (2, 1, 1), (0, 2, 1)]
+        for what, ratio in (("resample", "0"), ("resprior", "0.5"), ("resprior", "0.25"), ("resprior", "0.8")):
+            steps = []
+            for i in range(10):
+                l = lays4[i % 5] if what == "resample" or i % 5 < 3 or True else lays4[0]
+                n = [7, 1, 3, 12, 2, 5, 1, 9, 4, 6][i] if i < 6 else rng.randint(1, 40)
+                if what == "resprior" and int(math.floor(n * float(ratio))) >= n:
+                    n += 1
+                steps.append("%s%d:%d:%d:%d" % ("n" if (what == "resample" and i % 4 == 3) else "r", n, l[0], l[1], l[2]))
+            g.add("objseq", "valid", dict(what=what, ratio=ratio), {"steps": steps})
+        # WhiteNoiseAcceleration / LinearModel: sample and state counts changing between calls of one object
+        for D in (1, 2, 3):
+            steps = ["%s%d" % (rng.choice("spmt"), q) for q in (3, 0, 1, 17, 2, 40, 1, 5)] + ["s7", "s0", "s1", "m2", "m9", "t4", "t1", "p6"]
+            g.add("objseq", "valid", dict(what="wna", D=D), {"steps": steps})
+            ms = [rng.randrange(2 * D) for _ in range(rng.randint(1, 4))]
+            steps = ["z", "s3", "h5", "z", "s0", "h1", "z", "z", "s9", "h2", "z", "s1", "z", "h7"]
+            g.add("objseq", "valid", dict(what="sensor", D=D, T=3 + D), {"steps": steps, "ms": ms})
+        # predictions: UT weights / output object across component counts
+        for ls in ((3, 0, 0), (2, 1, 0), (2, 1, 1)):
+            for additive in (0, 1):
+                q = lcov(ls) if additive else 2
+                g.add("objseq", "valid", dict(what="ukfp", additive=additive, q=q, **lay("s", ls)), {"steps": ["c2", "c5", "c1", "k3", "c4", "c1", "c7", "k2", "c3"]})
+        g.add("objseq", "valid", dict(what="kfp", additive=0, q=0, **lay("s", (4, 0, 0))), {"steps": ["c2", "c5", "c1", "k3", "c4", "c1"]})
+        g.add("objseq", "valid", dict(what="kfp", additive=0, q=0, **lay("s", (2, 1, 0))), {"steps": ["c3", "c1", "k2", "c6"]})
+        # one ParticleSet: storage (state_, mean_, covariance_, weight_) re-sized by augmentWithNoise / resize / += and then
+        # paired with sets of the shape its descriptors advertise
+        for ls0 in ((4, 0, 0), (2, 1, 0), (2, 1, 1), (0, 2, 1), (1, 0, 0)):
+            n = rng.choice([1, 2, 3, 5]); comps = n; ls = ls0
+            steps = ["f", "s", "a%d" % rng.randint(1, 3), "r%d" % comps, "f", "s", "m", "c"]      # resize to the very description it has
+            for _ in range(10):
+                t = rng.choice(["a", "r=", "r", "+", "R", "R=", "+"])
+                if t == "a": steps.append("a%d" % rng.randint(1, 3))
+                elif t == "r=": steps.append("r%d" % comps)
+                elif t == "r": comps = rng.choice([c for c in (1, 2, 3, 4, 6) if c != comps]); steps.append("r%d" % comps)
+                elif t == "+": k = rng.randint(1, 3); comps += k; steps.append("+%d" % k)
+                elif t == "R=": steps.append("R%d:%d:%d" % (comps, ls[0], ls[1]))
+                else:
+                    comps = rng.randint(1, 4); ls = (rng.randint(0, 4), ls[1] if rng.random() < 0.5 else rng.randint(0, 2), ls[2])
+                    if ls[0] + ls[1] == 0: ls = (1, 0, ls[2])
+                    steps.append("R%d:%d:%d" % (comps, ls[0], ls[1]))
+                steps += rng.choice([["f", "s"], ["f", "m"], ["f", "c"], ["f", "s", "m", "c"], []])
+            g.add("objseq", "valid", dict(what="pset", n=n, **lay("s", ls0)), {"steps": steps})
+        # one grid initialiser, particle sets of changing count and state size
+        g.add("objseq", "valid", dict(what="grid", nx=2, ny=3), {"steps": ["g6:4", "g5:4", "g6:2", "g6:6", "g7:4", "g6:4", "g1:4", "g6:4"]})
+
+
+def objseq_expected(case):
+    """the sizes / return values the calls of an objseq case must report, from the arguments alone"""
+    m = case.meta
+    what = m["what"]
+    steps = list(case.get("steps"))
+    ints = lambda t: [int(x) for x in t[1:].split(":") if x != ""]
+    out = []
+    if what in ("kf", "ukf", "sukf", "gpf", "boot"):
+        lik = (0, 0)
+        for t in steps:
+            if t == "l":
+                out += list(lik); continue
+            k = ints(t)[0]
+            if what == "kf": out += [k, int(m["n"])]
+            elif what in ("ukf", "sukf"): out += [k, ldim((int(m["pL"]), int(m["pC"]), int(m["pq"])))]
+            else: out += [k, k, k]
+            if t[0] == "c": lik = (1, k)
+            elif t[0] in "uf": lik = (0, 0)
+    elif what in ("resample", "resprior"):
+        for t in steps:
+            n, L, C, q = ints(t)
+            out += [1] if t[0] == "n" else [n, n, n, n, lcov((L, C, q)) * n]
+    elif what == "wna":
+        d = 2 * int(m["D"])
+        for t in steps:
+            q = ints(t)[0]
+            out += [q, 1] if t[0] == "t" else [d, q]
+    elif what == "sensor":
+        T, served, ms = int(m["T"]), 0, len(case.get("ms"))
+        for t in steps:
+            if t[0] == "z":
+                out += [1, ms, 1] if served < T else [0, 0, 0]
+                served += 1 if served < T else 0
+            else:
+                out += [ms, ints(t)[0]]
+    elif what in ("ukfp", "kfp"):
+        ls = (int(m["sL"]), int(m["sC"]), int(m["sq"]))
+        for t in steps:
+            out += [ints(t)[0], ldim(ls), lcov(ls)]
+    elif what == "grid":
+        for t in steps:
+            n, L = ints(t)
+            out += [1 if (n == int(m["nx"]) * int(m["ny"]) and L == 4) else 0]
+    return out
+
+
+ENTRY_OF_OBJSEQ = {"kf": "KFCorrection", "ukf": "UKFCorrection", "sukf": "SUKFCorrection", "gpf": "GPFCorrection", "boot": "BootstrapCorrection",
+                   "resample": "Resampling", "resprior": "ResamplingWithPrior", "wna": "WhiteNoiseAcceleration", "sensor": "SimulatedLinearSensor",
+                   "ukfp": "UKFPrediction", "kfp": "KFPrediction", "grid": "InitSurveillanceAreaGrid", "pset": "ParticleSet"}
+# kinds without a shape program: every report of the assertion / sanitizer builds is a finding
+UNMODELLED = ("lifetime", "objseq")
+
+
 def g_lifetime(g, rng, tier):
     for what in ("linearmodel_traits", "wna_move", "resampling_copy", "history_move"):
         g.add("lifetime", "valid", dict(what=what))
@@ -423,7 +635,8 @@ def g_perturb(g, rng, tier):
         g.add(kind, "outside", meta, words)
 
 
-GENS = [g_wna, g_simstate, g_linsensor, g_history, g_grid, g_sigma, g_psaug, g_ut, g_kf, g_ukf, g_resample, g_density, g_extract, g_lifetime, g_perturb]
+GENS = [g_wna, g_simstate, g_linsensor, g_history, g_grid, g_sigma, g_psaug, g_ut, g_kf, g_ukf, g_resample, g_density, g_extract, g_extseq, g_objseq,
+        g_lifetime, g_perturb]
 
 
 def generate(rng, tier):
@@ -431,6 +644,50 @@ def generate(rng, tier):
     for f in GENS:
         f(g, rng, tier)
     return g.cases
+
+
+SEARCH_CASES = 3000
+
+
+def search_cases(rng):
+    """The widened search (vlib/runner.py: widen_if_needed): the thorough generator, taken round-robin over the case kinds
+    (its first 3000 cases in generation order would be history buffers and transforms only)."""
+    by_kind = {}
+    for c in generate(rng, "thorough"):
+        by_kind.setdefault(c.kind, []).append(c)
+    out, depth = [], 0
+    while len(out) < SEARCH_CASES and any(depth < len(v) for v in by_kind.values()):
+        for k in sorted(by_kind):
+            if depth < len(by_kind[k]) and len(out) < SEARCH_CASES:
+                out.append(by_kind[k][depth])
+        depth += 1
+    return out
+
+
+def main(ctx, a):
+    """The runner's standard flow.  Its widened search (widen_if_needed) is skipped as soon as ctx.violations is not empty,
+    and the two registered known findings (UKF / SUKF correction of a quaternion state) are in that list on every run, so the
+    widened search would never run for C14: they are set aside while it decides and put back before classification."""
+    import sys
+    from vlib import runner
+    if not a.skip_proofs:
+        runner.prove(ctx)
+    if a.replay:
+        cases = caseio.read_cases(a.replay)
+        ctx.log("replaying %d case(s) from %s" % (len(cases), a.replay))
+    else:
+        cases = generate(ctx.rng, a.tier)
+    if cases:
+        runner.standard_cases(ctx, cases)
+    known = {k.get("signature") for k in runner.load_known().get("findings", []) if k.get("property") == ID}
+    aside = [v for v in ctx.violations if v[0] in known]
+    ctx.violations[:] = [v for v in ctx.violations if v[0] not in known]
+    try:
+        runner.widen_if_needed(ctx, sys.modules[__name__], a)
+    finally:
+        ctx.violations[:] = aside + list(ctx.violations)
+    ctx.extra["histogram"] = histogram(cases)
+    return runner.finish(ctx)
 
 
 # ------------------------------------------------------------------ verdicts
@@ -462,15 +719,24 @@ def compare(case, impl, model):
         OUTSIDE["outside_accepted" if mv == "fails" else "outside_agree_no_failure"] += 1
         return d
     if mv == "fails":
-        if case.kind == "lifetime":
+        if case.kind in UNMODELLED:
             return d
         d.append("model: %s fails at site %s; implementation: no report (verdict %s)" % (me, ms, iv))
     elif mv != iv or (mv == "threw" and me != ie):
         d.append("verdict: model %s %s, implementation %s %s" % (mv, me, iv, ie))
-    elif mv == "safe" and case.kind != "lifetime":
+    elif mv == "safe" and case.kind not in UNMODELLED:
         mo, io = list(model.get("obs") or []), list(impl.get("obs") or [])
         if mo != io:
             d.append("observable shapes / return values: model %s, implementation %s" % (" ".join(mo), " ".join(io)))
+        if case.kind == "extseq":
+            # the window after every operation, as getInfo() reports it; a message the harness cannot read is counted, not compared
+            mw, iw = list(model.get("win") or []), list(impl.get("win") or [])
+            if iw and all(x != "-1" for x in iw):
+                WINDOW_SEEN[0] += 1
+                if mw != iw:
+                    d.append("window after each operation: model %s, implementation %s" % (" ".join(mw), " ".join(iw)))
+            else:
+                WINDOW_SEEN[1] += 1
     return d
 
 
@@ -525,6 +791,35 @@ def oracle(case, impl, model):
     if k == "lifetime" and case.meta.get("what") == "linearmodel_traits" and any(o):
         v.append(("C14:LinearModel:copyable-or-movable-with-reference-capture",
                   "LinearModel / SimulatedLinearSensor became copyable or movable (%s) while gauss_rnd_sample_ captures this by reference" % o))
+    if k == "objseq" and case.meta["what"] == "pset":
+        # after every operation the descriptors of the set agree with its storage
+        for j in range(0, len(o) - 12, 13):
+            comps, dim, dc, noise, L, C, sr, sc, mr, mc, cr, cc, wn = o[j:j + 13]
+            q = int(case.meta["sq"])
+            if not (sr == dim == mr and sc == comps == mc == wn and cr == dc and cc == dc * comps
+                    and dim == L + C * (4 if q else 1) + noise and dc == L + C * (3 if q else 1) + noise):
+                v.append(("C14:ParticleSet:sequence-on-one-object:descriptor!=storage",
+                          "after operation %d of %s: components %d, dim %d, dim_covariance %d, dim_noise %d (linear %d, circular %d) but state %dx%d, mean %dx%d, "
+                          "covariance %dx%d, %d weights" % (j // 13, " ".join(case.get("steps")), comps, dim, dc, noise, L, C, sr, sc, mr, mc, cr, cc, wn)))
+                break
+    elif k == "objseq":
+        want = objseq_expected(case)
+        if o != want:
+            i = next((j for j in range(min(len(o), len(want))) if o[j] != want[j]), min(len(o), len(want)))
+            v.append(("C14:%s:sequence-on-one-object:reported-size!=arguments" % ENTRY_OF_OBJSEQ.get(case.meta["what"], case.meta["what"]),
+                      "steps %s: value %d of the reported sizes / flags is %s, the arguments imply %s (reported %s, implied %s)"
+                      % (" ".join(case.get("steps")), i, o[i] if i < len(o) else "missing", want[i] if i < len(want) else "nothing", o, want)))
+    if k == "extseq":
+        # every extraction that is possible is reported as available, with one number per state component
+        ssz, stat, i = int(case.meta["el"]) + int(case.meta["ec"]), 1, 0
+        for t in case.get("ops"):
+            if t[0] == "m": stat = int(t[1:]) // 4
+            if t[0] in "xX" and i + 1 < len(o):
+                ok_ = 0 if (stat == 2 and t[0] == "x") else 1
+                if o[i] != ok_ or o[i + 1] != ssz:
+                    v.append(("C14:EstimatesExtraction::extract:estimate-shape", "operation %s (statistic %d) returned (%d, %d numbers) for a %d-dimensional state"
+                              % (t, stat, o[i], o[i + 1], ssz))); break
+            i += 2 if t[0] in "xX" else 1
     if k in ("resample", "resprior") and len(o) == 5:
         n = int(case.meta["n"] if k == "resprior" else case.meta["nr"])
         if not (o[0] == o[1] == o[2] == o[3] == n):
@@ -572,6 +867,7 @@ def report_class(info):
 CLASS_OF_OP = {"mul": {"product"}, "same": {"size-mismatch", "not-square"}, "blk": {"block"}, "idx": {"block", "index", "empty"},
                "comma": {"comma-initializer"}, "div": {"crash", "FPE", "ubsan-division-by-zero"}, "pop": {"crash", "SEGV", "heap-buffer-overflow", "eigen-assert"}}
 ALL_SITES, FAILED_SITES, CLASS_CHECKED = set(), set(), [0, 0]
+WINDOW_SEEN = [0, 0]
 # 'outside' cases (inputs outside the property's quantifier) are informative only: hardening the code there must not alarm
 OUTSIDE = {"outside_failed_as_predicted": 0, "outside_failed_elsewhere": 0, "outside_accepted": 0, "outside_agree_no_failure": 0}
 
@@ -595,7 +891,7 @@ def on_crash(case, info, model):
         same = mv == "fails" and me == ie and (rc in want or (rc.startswith("ubsan-") and word1(model, "opclass") in ("blk", "idx")))
         OUTSIDE["outside_failed_as_predicted" if same else "outside_failed_elsewhere"] += 1
         return []
-    if mv == "fails" and me == ie and case.kind != "lifetime":
+    if mv == "fails" and me == ie and case.kind not in UNMODELLED:
         # same entry point: the kind of failing precondition must correspond too
         want = CLASS_OF_OP.get(word1(model, "opclass"), set())
         CLASS_CHECKED[0] += 1
@@ -607,6 +903,9 @@ def on_crash(case, info, model):
     detail = "%s in %s (rc=%s): %s" % (info.get("kind"), ie, info.get("rc"), info.get("stderr", "")[-700:].replace("\n", " | "))
     if case.kind == "lifetime":
         return [("C14:%s:%s" % (ie, case.meta.get("tag") or rc), "lifetime / initialisation error outside the shape calculus: " + detail)]
+    if case.kind == "objseq":
+        return [("C14:%s:sequence-on-one-object:%s" % (ie, rc), "calls with changing sizes on one %s object (%s), valid arguments: %s"
+                 % (ENTRY_OF_OBJSEQ.get(case.meta.get("what"), "?"), " ".join(case.get("steps")), detail))]
     if mv == "fails" and me == ie:
         if case.meta.get("cls") == "outside":
             return []            # an input outside the declared shapes: model and implementation agree on the failing entry point
@@ -624,6 +923,10 @@ def nontrivial(c):
         key += (" ".join(c.get("ms")),)
     if c.kind == "history":
         key += (len(c.get("ops")),)
+    if c.kind == "extseq":
+        key += (m.get("el"), m.get("ec"), zlib.crc32(" ".join(c.get("ops")).encode()))
+    if c.kind == "objseq":
+        key += (m.get("what"), zlib.crc32((" ".join(c.get("steps")) + repr(sorted(m.items()))).encode()))
     if c.kind in ("wna", "simstate") and str(m.get("D")) == "2" and m.get("cls") == "valid":
         return None              # what the existing tests already instantiate
     return key
@@ -640,7 +943,9 @@ def histogram(cases):
     return {"kind": h, "class": cls, "open_item_cases": tags,
             "model_site_labels_executed": len(ALL_SITES), "model_site_labels_failing_in_some_case": len(FAILED_SITES & ALL_SITES),
             "site_labels_never_failing": never,
-            "failing_cases_with_class_compared": CLASS_CHECKED[0], "class_mismatches": CLASS_CHECKED[1], **OUTSIDE}
+            "failing_cases_with_class_compared": CLASS_CHECKED[0], "class_mismatches": CLASS_CHECKED[1],
+            "extseq_window_compared": WINDOW_SEEN[0], "extseq_window_not_readable": WINDOW_SEEN[1],
+            "objseq_by_object": {w: sum(1 for c in cases if c.kind == "objseq" and c.meta.get("what") == w) for w in sorted(ENTRY_OF_OBJSEQ)}, **OUTSIDE}
 
 
 REQUIRED_THEOREMS = ["C14_WhiteNoiseAcceleration_safe", "C14_SimulatedStateModel_safe", "C14_bufferData_exhaustion_reported",
@@ -652,14 +957,21 @@ REQUIRED_THEOREMS = ["C14_WhiteNoiseAcceleration_safe", "C14_SimulatedStateModel
                      "C14_SUKFCorrection_safe", "C14_SUKFCorrection_quaternion_state_refuted", "C14_SUKFCorrection_zero_sub_size_refuted",
                      "C14_Resampling_safe", "C14_ResamplingWithPrior_safe", "C14_ResamplingWithPrior_quaternion_safe",
                      "C14_gaussian_density_safe", "C14_gaussian_density_UVR_safe", "C14_gaussian_density_UVR_zero_block_size_refuted",
-                     "C14_EstimatesExtraction_safe"]
+                     "C14_EstimatesExtraction_safe", "C14_EstimatesExtraction_sequences_safe",
+                     "C14_EstimatesExtraction_weights_match_history"]
 RULE = ("exhaustive over the enumerated options: 3 Dim values x every measured-component subset of size <= 3 x component counts 1..4 x the "
         "layouts (linear, linear+Euler, linear+quaternion, quaternion only; with and without noise augmentation) x the five unscented-transform "
         "overloads x small num / window / call counts (call sequences longer than the trajectory, the window and the 30-element cap), plus seeded "
         "random larger configurations and history-buffer operation sequences; plus inputs outside the declared shapes, on which model and "
-        "implementation must fail in the same entry point with the same kind of precondition, and 72 seeded shape-fuzzing cases per run (one "
+        "implementation must fail in the same entry point with the same kind of precondition; EstimatesExtraction as ONE object driven through "
+        "operation sequences (setMethod over all twelve methods, setMobileAverageWindowSize grow / shrink / clamped / refused, clear, both extract "
+        "overloads, particle count changing per call; every ordered pair of averaging families alternated around a window change or a clear, on "
+        "linear, mixed and circular-only layouts, plus seeded random sequences); call sequences with CHANGING sizes on one object of every step / "
+        "model that keeps a buffer sized by an earlier call (KF / UKF / SUKF correction, GPF / bootstrap correction, Resampling(+prior), "
+        "WhiteNoiseAcceleration, SimulatedLinearSensor, KF / UKF prediction, the grid initialiser, and a ParticleSet re-sized by augmentWithNoise / "
+        "resize / += and then paired with sets of its advertised shape); and 72 seeded shape-fuzzing cases per run (one "
         "size parameter of a valid case moved by +-1/+-2); non-trivial = everything except the 2-D motion model alone; distinct by "
-        "(kind, Dim, components, layouts, overload, flags, measured subset)")
+        "(kind, Dim, components, layouts, overload, flags, measured subset; operation sequence for the sequence kinds)")
 TRUSTED_BASE = ["Coq 8.16.1 kernel (coqc); no axioms (Print Assumptions: closed under the global context); lia/nia",
                 "the shape programs of coq/C14_Model.v are hand transcriptions of the Eigen operations of each entry point (checked only by the differential run)",
                 "extraction (ExtrOcamlBasic only; Peano nat) and ocaml/drv_C14.ml, ocaml/caseio.ml",
@@ -671,7 +983,9 @@ ASSUMPTIONS = ["GaussianMixture / ParticleSet objects are built through their co
 LEVEL_TEXT = ("Proof of a shape calculus: for every configuration (unbounded dimensions, component / particle / call counts, every history-buffer "
               "operation sequence) the shape program of each modelled entry point — WhiteNoiseAcceleration, LinearModel / SimulatedLinearSensor, "
               "SimulatedStateModel, HistoryBuffer, InitSurveillanceAreaGrid, augmentWithNoise, sigma_point, the five unscented_transform overloads, "
-              "KF / UKF / SUKF steps and their likelihoods, Resampling(+prior), the density utilities, EstimatesExtraction — has every Eigen "
+              "KF / UKF / SUKF steps and their likelihoods, Resampling(+prior), the density utilities, EstimatesExtraction (single-method call "
+              "sequences, and a state machine over window, stored estimates and the three cached weight-vector lengths for EVERY sequence of "
+              "setMethod / setMobileAverageWindowSize / clear / extract operations on one object) — has every Eigen "
               "precondition satisfied (products conformable, fixed-size assignments equal, blocks inside, indices in range, no pop of an empty deque, "
               "comma initialisers exact) and exhaustion is reported by the return value; the two classes where this is false of the code (UKF / SUKF "
               "correction of a state containing quaternions) are proved refuted and registered as known findings. Tied to the code by running the "
@@ -698,5 +1012,14 @@ LEVEL_NOTE = ("The shape programs are hand transcriptions. Their tie to the code
               "density); empty particle sets, prior share 1, inputs whose shape differs from the declared description. On these 'outside' cases "
               "agreement of model and code is only COUNTED in the evidence (failed as predicted / failed elsewhere / accepted), never reported, so "
               "that hardening the code there raises no alarm. "
+              "Objects that keep a buffer sized by an earlier call: only HistoryBuffer and EstimatesExtraction have a proved sequence model (window, "
+              "stored elements, cached weight lengths). The call sequences with changing component / particle counts, measurement layouts and sizes, "
+              "noise sizes and sample counts on ONE KFCorrection, UKFCorrection (additive, generic, weights recomputed online), SUKFCorrection, "
+              "GPFCorrection (Kalman and unscented inner step), BootstrapCorrection, Resampling, ResamplingWithPrior, WhiteNoiseAcceleration, "
+              "SimulatedLinearSensor, KFPrediction, UKFPrediction, InitSurveillanceAreaGrid and ParticleSet object (kind objseq) have NO shape program: for them "
+              "the assertion and sanitizer builds are the only observers, plus a comparison of the sizes / flags the calls report (corrected "
+              "mixture, likelihood availability and length, resampled set, sample shapes) with what the arguments imply; the single-call shape "
+              "programs of those steps say nothing about state carried from one call to the next. EstimatesExtraction's window is read from the "
+              "text of getInfo(); if that text is not recognised the window is not compared (counted in the evidence). "
               "DESIGN.md's plan to re-run the generators of the other properties under the assertion build was NOT carried out: only C14's own "
               "generators run under these builds.")
